@@ -11,6 +11,7 @@ import (
 	"unsafe"
 
 	"verif/rt/vsched"
+	"verif/rt/vsync"
 )
 
 // ptrIDs numbers pointer-typed map keys in order of first insertion within
@@ -149,6 +150,45 @@ func FWq[T any](p *T, name, site string) *T {
 		id := vsched.AddrObj(unsafe.Pointer(p))
 		vsched.NameObj(id, name)
 		vsched.RecordAccess(id, true, site)
+	}
+	return p
+}
+
+// ArrR records (race check only, no scheduling point) a read of the CONTENTS
+// of the byte array b points into; ArrW a write. Used for pooled buffers,
+// whose contents no lock protects: the only thing that orders two users of a
+// buffer is its hand-over (pool Put -> Get, channel, same goroutine).
+func ArrR(b []byte, name, site string) { arr(b, false, name, site) }
+
+// ArrW is ArrR for a write.
+func ArrW(b []byte, name, site string) { arr(b, true, name, site) }
+
+func arr(b []byte, write bool, name, site string) {
+	// Only with recycling pools can a buffer reach a second user at all (in
+	// fresh mode every Get returns a new object and Put drops it).
+	if !vsync.PoolRecycle || !QuietRecording || !vsched.Active() {
+		return
+	}
+	if id, ok := vsched.ArrObj(b); ok {
+		vsched.NameObj(id, name)
+		vsched.RecordAccess(id, write, site)
+	}
+}
+
+// SliceR is FRq for a []byte field whose CONTENTS are recorded too (p9's
+// buffer.data): reading the field counts as reading the array.
+func SliceR(p *[]byte, name, site string) *[]byte {
+	if vsync.PoolRecycle {
+		arr(*p, false, "buffer bytes", site)
+	}
+	return p
+}
+
+// SliceW is SliceR for a write context (append to / reslice of the field):
+// counts as writing the array.
+func SliceW(p *[]byte, name, site string) *[]byte {
+	if vsync.PoolRecycle {
+		arr(*p, true, "buffer bytes", site)
 	}
 	return p
 }
